@@ -220,15 +220,15 @@ Section CtxProofs.
   Section Loop.
     Variables (cg : list node) (coo : Z).
 
-    Lemma share_inputs_loop_sem nodes : forall sts k out out' args ins0 env ins_m e0 ins_s e1 kv0 kv1 kv2,
+    Lemma share_inputs_loop_sem tl nodes : forall sts k out out' args ins0 env ins_m e0 ins_s e1 kv0 kv1 kv2,
       share_inputs_loop nodes sts k out = Ok (out', args) ->
       thm_frag nodes = true ->
-      cevals cg coo ins0 out env ins_m ->
+      cevals cg coo ins0 out env (ins_m ++ tl) ->
       znth env k = Ok (RTup R [kv0; kv1; kv2]) ->
       dfrom nodes (Some (e0, ins_s)) = Some (e1, []) ->
       ctx_inrel sts ins_s ins_m ->
       exists env' args_v,
-        cevals cg coo ins0 out' env' [] /\ mono env env' /\ ext out out' /\
+        cevals cg coo ins0 out' env' tl /\ mono env env' /\ ext out out' /\
         Forall2 (fun a v => znth env' a = Ok v) args args_v /\
         inrel (map status_flag sts) ins_s args_v.
     Proof.
@@ -243,7 +243,7 @@ Section CtxProofs.
         + destruct (n_op nd) eqn:Ho; try discriminate. cbn [thm_op] in Hf0.
           destruct sts as [|st sts]; [discriminate|].
           apply bind_ok in H as ([o1 si] & H1 & H). apply bind_ok in H as ([o2 rest] & Hr & H). inversion H; subst out' args; clear H.
-          inversion Hin as [sts0 | sts0 i x s0 m0 Hrest | sts0 v0 s0 m0 Hrest | sts0 x a b c s0 m0 Hsum Hrest]; subst.
+          inversion Hin as [sts0 | sts0 i x s0 m0 Hrest | sts0 v0 s0 m0 Hrest | sts0 x a b c s0 m0 Hsum Hrest]; subst; cbn [app] in E.
           * (* owned by party i: a plain input, then share_node *)
             unfold share_input in H1. apply bind_ok in H1 as ([oi pin] & Hi1 & H1).
             destruct (emit_input_cevals R r0 radd rmul rsub atom matom catom one lin bil nlin cg coo _ _ _ _ _ _ _ _ _ Hi1 E) as [Ev1 F1].
@@ -476,4 +476,217 @@ Section CtxProofs.
         intros q Hq. exfalso. destruct rest; [destruct Hq|]. unfold zlen in Hlen. cbn [length map] in Hlen. lia.
     Qed.
   End Reveal.
+
+  (* ---------- the Call node ---------- *)
+  Lemma emit_call_spec gid callee co args out out' id :
+    emit_call gid callee co args out = Ok (out', id) ->
+    exists t, out_ty callee co = Ok t /\ zlen args = zlen (input_types callee) /\
+              out' = out ++ [mkNode OCall args [gid] [] t] /\ id = zlen out.
+  Proof.
+    unfold emit_call. intros H. apply bind_ok in H as (ts & _ & H).
+    destruct (zlen args =? zlen (input_types callee)) eqn:Hl; cbn [negb] in H; [|discriminate].
+    destruct (list_eqb ty_eqb (input_types callee) ts); cbn [negb] in H; [|discriminate].
+    apply bind_ok in H as (t0 & Ht0 & H). apply bind_ok in H as (t & Hr & H). apply register_inv in Hr. subst t.
+    inversion H; subst. exists t0. repeat split; auto. now apply Z.eqb_eq.
+  Qed.
+
+  Lemma Forall2_mapM {A B} (f : A -> result B) l vs : Forall2 (fun a v => f a = Ok v) l vs -> mapM f l = Ok vs.
+  Proof. induction 1 as [|a v l vs Ha _ IH]; cbn [mapM]; [reflexivity|]. now rewrite Ha, IH. Qed.
+  Lemma Forall2_len {A B} (P : A -> B -> Prop) l l' : Forall2 P l l' -> length l = length l'.
+  Proof. induction 1; cbn; auto. Qed.
+
+  Lemma reveal3_inv vc v : reveal3 R radd vc = Some v -> exists a b c, vc = T3 a b c /\ radd (radd a b) c = v.
+  Proof.
+    unfold reveal3. intros H.
+    destruct vc as [x|l|]; try discriminate.
+    destruct l as [|[a|?|] l]; try discriminate.
+    destruct l as [|[b|?|] l]; try discriminate.
+    destruct l as [|[c|?|] l]; try discriminate.
+    destruct l; try discriminate. inversion H. exists a, b, c. split; reflexivity.
+  Qed.
+
+  (* the PRF keys of the main graph: three Random nodes, each sent to the previous party, and their tuple *)
+  Definition prf_prefix : list node :=
+    Eval vm_compute in
+      match (let* (m1, kv) := generate_prf_key_triple [] in emit OCreateTuple kv [] m1) with
+      | Ok (m, _) => m
+      | _ => []
+      end.
+  Lemma prf_prefix_spec :
+    (let* (m1, kv) := generate_prf_key_triple [] in emit OCreateTuple kv [] m1) = Ok (prf_prefix, 6).
+  Proof. vm_compute. reflexivity. Qed.
+
+  Definition prf_env : list rv :=
+    [RKey R; RKey R; RKey R; RKey R; RKey R; RKey R; RTup R [RKey R; RKey R; RKey R]].
+  Lemma prf_prefix_cevals cg coo ins0 : cevals cg coo ins0 prf_prefix prf_env ins0.
+  Proof. reflexivity. Qed.
+
+  Lemma share_all_inputs_length nodes sts k mul b2a tr out out' args :
+    share_all_inputs nodes sts k mul b2a tr out = Ok (out', args) ->
+    length args = ((if mul then 1 else 0) + (if b2a then 1 else 0) + (if tr then 1 else 0) + count_inputs nodes)%nat.
+  Proof.
+    unfold share_all_inputs. intros H.
+    apply bind_ok in H as ([o1 s1] & H1 & H). apply bind_ok in H as ([o2 s2] & H2 & H).
+    apply bind_ok in H as ([o3 ins] & H3 & H). inversion H; subst; clear H.
+    apply share_inputs_loop_length in H3. rewrite app_length, H3.
+    assert (L1 : length s1 = ((if mul then 1 else 0) + (if b2a then 1 else 0))%nat).
+    { destruct b2a.
+      - apply bind_ok in H1 as ([o k'] & _ & H1). inversion H1; subst. rewrite app_length. destruct mul; reflexivity.
+      - inversion H1; subst. destruct mul; reflexivity. }
+    assert (L2 : length s2 = (length s1 + (if tr then 1 else 0))%nat).
+    { destruct tr.
+      - apply bind_ok in H2 as ([o k'] & _ & H2). inversion H2; subst. rewrite app_length. reflexivity.
+      - inversion H2; subst. lia. }
+    lia.
+  Qed.
+
+  Lemma outputs_checked outs :
+    existsb (fun s => match s with IOParty id => 3 <=? id | _ => true end) (map IOParty outs) = false ->
+    Forall (fun p => p < 3) outs.
+  Proof.
+    induction outs as [|p outs IH]; cbn [map existsb]; intros H; constructor.
+    - apply orb_false_iff in H as [H _]. lia.
+    - apply orb_false_iff in H as [_ H]. auto.
+  Qed.
+
+  Lemma leaf_no_tget t i r : is_leaf t = true -> infer (OTupleGet i) [t] = Ok r -> False.
+  Proof.
+    intros Lt H. unfold infer in H; cbn [arity] in H. change (zlen [t] =? 1) with true in H. cbv iota in H.
+    unfold infer_op in H; cbn [nth] in H. destruct t; try discriminate.
+  Qed.
+
+  (* ---------- compile_to_mpc_context ---------- *)
+  Definition ctx_statement (cg : list node) (coo : Z) (mg : list node) (moo : Z) (outs : list Z)
+             (env_m : list rv) (v : R) : Prop :=
+    match outs with
+    | [] => exists vc, znth env_m moo = Ok vc /\ reveal3 R radd vc = Some v
+    | p0 :: rest =>
+        znth env_m moo = Ok (L v) /\
+        exists c cn, znth mg c = Ok cn /\ n_op cn = OCall /\ In AMpcCall (n_annots cn) /\
+          (forall k nd, znth mg k = Ok nd -> c < k ->
+             n_op nd <> OCall /\ forall q, In (ASend p0 q) (n_annots nd) -> znth env_m k = Ok (L v)) /\
+          (output_annotated_private cg coo = true ->
+           forall q, In q rest -> q <> p0 ->
+             exists k nd, znth mg k = Ok nd /\ c < k /\ In (ASend p0 q) (n_annots nd))
+    end.
+
+  Theorem compile_context_correct nodes output sts outs cg coo mg moo priv um :
+    compile_to_mpc nodes output sts (map IOParty outs) = Ok ((cg, coo), (mg, moo)) ->
+    propagate_private_annotations nodes (map status_flag sts) = Ok (priv, um) ->
+    output_annotated_private cg coo = mem output priv ->
+    thm_frag nodes = true ->
+    Forall (fun p => 0 <= p) outs ->
+    forall ins_s ins_m env_s v,
+    dev nodes ins_s = Some env_s -> znth env_s output = Ok (L v) ->
+    ctx_inrel sts ins_s ins_m ->
+    exists env_m,
+      ceval R r0 radd rmul rsub atom matom catom one lin bil nlin cg coo mg ins_m = Some env_m /\
+      ctx_statement cg coo mg moo outs env_m v.
+  Proof.
+    intros H Hppa Hann Hf Hpos ins_s ins_m env_s v Hs Hv Hin.
+    unfold compile_to_mpc in H.
+    destruct (existsb _ sts); [discriminate|].
+    destruct (existsb _ (map IOParty outs)) eqn:Hchk; [discriminate|]. apply outputs_checked in Hchk.
+    unfold compile_to_mpc_context in H.
+    change (map (fun s => negb (iostatus_eqb s IOPublic)) sts) with (map status_flag sts) in H.
+    apply bind_ok in H as ([cg' coo'] & HC & H).
+    assert (HP := prf_prefix_spec). apply bind_ok in HP as ([m1 kv] & HP1 & HP2). rewrite HP1 in H. cbn [bind] in H.
+    rewrite HP2 in H. cbn [bind] in H.
+    apply bind_ok in H as ([m3 shared_input] & H3 & H).
+    apply bind_ok in H as ([m4 call] & H4 & H).
+    apply bind_ok in H as (m5 & H5 & H).
+    apply bind_ok in H as (out_node & Hon & H).
+    apply bind_ok in H as ([m6 result] & H6 & H). inversion H; subst cg' coo' m6 result; clear H.
+    (* the source consumes exactly its inputs *)
+    unfold deval in Hs. destruct (dfrom nodes (Some ([], ins_s))) as [[es rest_s]|] eqn:Hds; [|discriminate].
+    inversion Hs; subst es; clear Hs.
+    destruct (dfrom_ins _ _ _ _ _ Hds) as (used & -> & Hul & Hall).
+    specialize (Hall []). rewrite app_nil_r in Hall.
+    destruct (ctx_inrel_split _ _ _ _ Hin) as (mu & mr & sts' & -> & Hin_u & _ & Hmulen).
+    assert (Hdev : dev nodes used = Some env_s) by (unfold deval; rewrite Hall; reflexivity).
+    (* the flags of share_all_inputs *)
+    destruct (emit_call_spec _ _ _ _ _ _ _ H4) as (tcall & Htcall & Hargs & -> & ->).
+    pose proof (share_all_inputs_length _ _ _ _ _ _ _ _ _ H3) as Hlen.
+    assert (Hcnt : (count_inputs cg <= (if um then 1 else 0) + count_inputs nodes)%nat).
+    { destruct (ctx_inrel_witness _ _ _ Hin_u) as (c0 & Hc0 & Hc0l).
+      destruct (compile_graph_output_typed _ _ _ _ _ _ _ HC Hppa Hf _ _ _ _ (RKey R) (RKey R) (RKey R) Hdev Hv Hc0)
+        as (env_c & vc & Hev & _ & _).
+      unfold deval in Hev. destruct (dfrom cg (Some ([], keys_input um (RKey R) (RKey R) (RKey R) ++ c0))) as [[ec rc]|] eqn:Hdc; [|discriminate].
+      destruct (dfrom_ins _ _ _ _ _ Hdc) as (u' & Hu' & Hu'l & _).
+      apply (f_equal (@length _)) in Hu'. rewrite !app_length in Hu'. rewrite <- Hu'l, <- Hul, <- Hc0l.
+      destruct um; cbn [keys_input length] in Hu'; lia. }
+    assert (Hflags : contains_node_annotation cg APRFMultiplication = um /\
+                     contains_node_annotation cg APRFB2A = false /\ contains_node_annotation cg APRFTruncate = false).
+    { unfold zlen in Hargs. rewrite input_types_length in Hargs. apply Nat2Z.inj in Hargs. rewrite Hlen in Hargs.
+      assert (Hum : um = true -> contains_node_annotation cg APRFMultiplication = true).
+      { intros ->. eapply compile_graph_mul_annot; eauto. }
+      destruct um; [rewrite (Hum eq_refl) in *|];
+        destruct (contains_node_annotation cg APRFMultiplication); destruct (contains_node_annotation cg APRFB2A);
+        destruct (contains_node_annotation cg APRFTruncate); try lia; auto. }
+    destruct Hflags as (Hmul & Hb2a & Htr). rewrite Hmul, Hb2a, Htr in H3.
+    (* input sharing *)
+    unfold share_all_inputs in H3. cbn [bind] in H3.
+    apply bind_ok in H3 as ([m3' ins] & HL & H3). inversion H3; subst m3' shared_input; clear H3.
+    destruct (share_inputs_loop_sem cg coo mr _ _ _ _ _ _ (mu ++ mr) prf_env _ _ _ _ (RKey R) (RKey R) (RKey R) HL Hf
+                (prf_prefix_cevals cg coo (mu ++ mr)) eq_refl Hall Hin_u)
+      as (e3 & args_v & Ev3 & M3 & X3 & FA & IR).
+    (* the computation graph on the shared inputs *)
+    destruct (compile_graph_output_typed _ _ _ _ _ _ _ HC Hppa Hf _ _ _ _ (RKey R) (RKey R) (RKey R) Hdev Hv IR)
+      as (env_c & vc & Hev & Hvc & Hout).
+    assert (Hargs_v : mapM (fun d => znth e3 d) ((if um then [6] else []) ++ ins) = Ok (keys_input um (RKey R) (RKey R) (RKey R) ++ args_v)).
+    { rewrite mapM_app, (Forall2_mapM (fun d => znth e3 d) _ _ FA). destruct um; cbn [mapM keys_input bind app]; [|reflexivity].
+      rewrite (M3 6 (RTup R [RKey R; RKey R; RKey R]) eq_refl). reflexivity. }
+    pose proof (cevals_length R r0 radd rmul rsub atom matom catom one lin bil nlin cg coo _ _ _ _ Ev3) as Le3.
+    assert (Ev4 : cevals cg coo (mu ++ mr) (m3 ++ [mkNode OCall ((if um then [6] else []) ++ ins) [0] [] tcall]) (e3 ++ [vc]) mr).
+    { eapply cevals_snoc; [exact Ev3 | reflexivity | exact Hargs_v |].
+      cbn [n_op ceval_node]. rewrite Hev, Hvc. reflexivity. }
+    assert (F4 : znth (e3 ++ [vc]) (zlen m3) = Ok vc) by (rewrite <- Le3; apply znth_last).
+    pose proof (add_annotation_cevals R r0 radd rmul rsub atom matom catom one lin bil nlin cg coo _ _ _ _ _ _ _ H5 Ev4) as Ev5.
+    destruct (add_annotation_ext _ _ _ _ H5) as [X5 L5].
+    destruct (add_annotation_has _ _ _ _ H5) as (cn & Hcn & Hcna).
+    assert (Hcnop : n_op cn = OCall).
+    { destruct X5 as [_ X5]. destruct (X5 _ _ (znth_last m3 _)) as (nd' & Hnd' & (Hop & _)). rewrite Hcn in Hnd'. inversion Hnd'; subst nd'. now rewrite <- Hop. }
+    assert (Tcall : out_ty m5 (zlen m3) = Ok tcall) by (eapply ext_out_ty; [exact X5 | apply out_ty_last]).
+    assert (L5' : zlen m5 = zlen m3 + 1) by (rewrite L5, zlen_app, zlen_one; reflexivity).
+    (* is_output_private *)
+    unfold output_annotated_private in Hann. rewrite Hon in Hann. rewrite Hann in H6.
+    unfold ceval.
+    destruct (mem output priv) eqn:Hpriv.
+    - (* private result *)
+      destruct Hout as [Hrv Hsh]. destruct (reveal3_inv _ _ Hrv) as (a & b & c & -> & Hsum).
+      destruct Hsh as (T & HT & HsT). rewrite Htcall in HT. inversion HT; subst T.
+      destruct outs as [|p0 rest].
+      + cbn [map reveal_output] in H6. inversion H6; subst mg moo.
+        exists (e3 ++ [T3 a b c]). unfold cevals, MpcCompileCtxBase.cevals in Ev5. rewrite Ev5. split; [reflexivity|].
+        cbn [ctx_statement]. exists (T3 a b c). split; [exact F4 | exact Hrv].
+      + inversion Hpos as [|? ? Hp0 Hposr]; subst. inversion Hchk as [|? ? Hp3 Hchkr]; subst.
+        destruct (reveal_sem cg coo (mu ++ mr) (zlen m5) p0 _ _ _ _ _ _ _ _ a b c _ H6 Ev5 F4 Tcall HsT eq_refl eq_refl (conj Hp0 Hp3))
+          as (e6 & Ev6 & M6 & X6 & F6 & SI6 & Ex6).
+        exists e6. unfold cevals, MpcCompileCtxBase.cevals in Ev6. rewrite Ev6. split; [reflexivity|].
+        cbn [ctx_statement]. split; [exact F6|].
+        destruct X6 as [L6 X6]. destruct (X6 _ _ Hcn) as (cn' & Hcn' & (Hop' & _ & _ & Hincl')).
+        exists (zlen m3), cn'. split; [exact Hcn'|]. split; [now rewrite <- Hop'|]. split; [auto|].
+        split.
+        * intros k nd Hk Hlt. apply (SI6 k nd Hk). lia.
+        * intros _ q Hq Hqp.
+          assert (Hq0 : 0 <= q) by (rewrite Forall_forall in Hposr; auto).
+          assert (Hq3 : q < 3) by (rewrite Forall_forall in Hchkr; auto).
+          destruct (Ex6 q Hq Hqp (conj Hq0 Hq3)) as (k & nd & Hk & Hkb & Ha). exists k, nd. split; [exact Hk|]. split; [lia | exact Ha].
+    - (* public result *)
+      destruct Hout as [-> (T & HT & LT)]. rewrite Htcall in HT. inversion HT; subst T.
+      destruct outs as [|p0 rest].
+      + cbn [map] in H6. apply bind_ok in H6 as ([m nd] & HS & H6). apply bind_ok in H6 as (m' & HA & H6). inversion H6; subst m' nd; clear H6.
+        destruct (share_node_sem R r0 r1 radd rmul rsub ropp Rth atom matom catom one lin bil nlin cg coo
+                    _ _ _ _ _ _ _ _ _ _ (RKey R) (RKey R) (RKey R) _ HS Ev5 Tcall LT F4 (znth_app_l _ _ _ _ (M3 6 _ eq_refl)))
+          as (e6 & a & b & c & Ev6 & M6 & F6 & Hsum & _).
+        pose proof (add_annotation_cevals R r0 radd rmul rsub atom matom catom one lin bil nlin cg coo _ _ _ _ _ _ _ HA Ev6) as Ev7.
+        exists e6. unfold cevals, MpcCompileCtxBase.cevals in Ev7. rewrite Ev7. split; [reflexivity|].
+        cbn [ctx_statement]. exists (T3 a b c). split; [exact F6|]. cbn [reveal3 MpcCompileSem.T3]. now rewrite Hsum.
+      + cbn [map] in H6. inversion H6; subst mg moo; clear H6.
+        exists (e3 ++ [L v]). unfold cevals, MpcCompileCtxBase.cevals in Ev5. rewrite Ev5. split; [reflexivity|].
+        cbn [ctx_statement]. split; [exact F4|].
+        exists (zlen m3), cn. split; [exact Hcn|]. split; [exact Hcnop|]. split; [exact Hcna|]. split.
+        * intros k nd Hk Hlt. apply znth_range in Hk. lia.
+        * unfold output_annotated_private. rewrite Hon, Hann. discriminate.
+  Qed.
 End CtxProofs.
